@@ -188,6 +188,50 @@ def property_return(repo, cls, name):
     return fi, None
 
 
+def resolve_self_props(repo, cls, expr, depth=3, keep=()):
+    """Copy of expr in which every `self.<p>` naming a *trivial* read-only
+    property of cls (body = optional docstring + `return E`, no setter
+    involved in a read) is replaced by E, repeatedly up to depth levels: a
+    getter that only renames a look-up is the look-up.  Properties named in
+    `keep` (the vocabulary of the rule's expected text) stay as written."""
+    def trivial(name):
+        if name in keep:
+            return None
+        fi = repo.lookup_method(cls, name)
+        if fi is None or not fi.is_property or fi.is_setter:
+            return None
+        body = list(fi.node.body)
+        if body and isinstance(body[0], ast.Expr) and isinstance(
+                body[0].value, ast.Constant) and isinstance(
+                    body[0].value.value, str):
+            body = body[1:]
+        if len(body) == 1 and isinstance(body[0], ast.Return) and \
+                body[0].value is not None and \
+                [a.arg for a in fi.node.args.args] == ['self']:
+            return body[0].value
+        return None
+
+    class Sub(ast.NodeTransformer):
+        changed = False
+
+        def visit_Attribute(self, n):
+            self.generic_visit(n)
+            if isinstance(n.ctx, ast.Load) and isinstance(
+                    n.value, ast.Name) and n.value.id == 'self':
+                e = trivial(n.attr)
+                if e is not None:
+                    self.changed = True
+                    return _clone(e)
+            return n
+    e = _clone(expr)
+    for _ in range(depth):
+        s = Sub()
+        e = s.visit(e)
+        if not s.changed:
+            break
+    return ast.fix_missing_locations(e)
+
+
 def _clone(expr):
     """Parent-link free copy of an expression."""
     return ast.parse(ast.unparse(expr), mode='eval').body
